@@ -150,6 +150,15 @@ func oracleC05(x *Exec) []verdict {
 			}
 		}
 	}
+	// (2b) a step whose command was never executed must not be reported finished after a stop
+	for i := range cfg.Steps {
+		s := &cfg.Steps[i]
+		st := ps[s.Name]
+		f := x.finalOf(s.Name)
+		if (st == nil || len(st.starts) == 0) && f != nil && f.Status == "finished" && !s.Unmet {
+			out = append(out, verdict{"C05/stop/unexecuted-step-reported-finished", fmt.Sprintf("%s never executed (the stop came first) but is reported finished: %s | %s", s.Name, x.finalsString(), x.trace())})
+		}
+	}
 	// (3) the run ends as canceled with the cancel and exit handlers — when the stop cut something short
 	cut := false
 	for _, n := range x.Nodes {
@@ -213,6 +222,10 @@ func c05family(thorough bool, add func(cfg *Config, bound int, maxExec int64, or
 			cfg := &Config{Steps: p, Agent: true, Stop: true, CleanupMs: 10000, Handlers: h, SigTerm: viaSig}
 			add(cfg, 0, 1000000, "C05")
 		}
+	}
+	// launch delay: the stop can arrive while the loop waits out the delay between two launches
+	for _, p := range [][]StepCfg{{st("a"), st("b")}, {hang(st("a")), st("b")}, {st("a"), st("b", "a")}, {st("a"), st("b"), st("c")}} {
+		add(&Config{Steps: p, Agent: true, Stop: true, CleanupMs: 10000, Handlers: h, DelayMs: 1000}, 0, 1000000, "C05")
 	}
 	// preemptive windows (between executor creation and process start; between the cancel check and the status flip)
 	pbs := [][]StepCfg{{hang(st("a"))}, {st("a"), hang(st("b", "a"))}}
